@@ -39,6 +39,8 @@ class Contract:
         self.post = getattr(impl, "post", None)
         self.raises: Dict[str, Callable] = dict(getattr(impl, "raises", {}) or {})
         self.may_raise: List[str] = list(getattr(impl, "may_raise", []) or [])
+        # one-sided exceptional postconditions: `raise X` implies cond_X (nothing is claimed on a normal return)
+        self.raises_implies: Dict[str, Callable] = dict(getattr(impl, "raises_implies", {}) or {})
         self.modifies: List[str] = list(getattr(impl, "modifies", []) or [])
         self.establishes = getattr(impl, "establishes", None)  # for __init__: class whose spec is established
         self.self_kind = getattr(impl, "self_kind", None)
